@@ -16,6 +16,14 @@ Record ccase := {
   k_cbs : list nat                   (* invocations *)
 }.
 
+(* [fillsub i n]: n events for subscription i are read and dispatched one after the other (the
+   harness feeds them to the reader in one piece; written as a function to keep the case files small) *)
+Fixpoint fillsub (i n : nat) : list label :=
+  match n with
+  | 0 => []
+  | S k => LPeerMsg (MFor (OSub i) TEvent) :: LDispatch :: fillsub i k
+  end.
+
 Definition call_obs (s : state) (c : nat) : option (option bool) :=
   match cp s c with
   | CIdle => Some None
@@ -73,4 +81,15 @@ Example smoke : ccase_ok {| k_n := 2; k_m := 1; k_d := 1;
   k_trace := [LOnDisc 0; LSubscribe 0; LCallMake 0; LCallSend 0; LCallMake 1; LCallSend 1;
               LPeerMsg (MFor (OCall 0) TReply); LDispatch; LPeerMsg (MFor (OSub 0) TEvent); LDispatch; LConnDie; LReadFail];
   k_calls := [Some true; Some false]; k_subs := [(true, 1)]; k_cbs := [1] |} = true.
+Proof. vm_compute. reflexivity. Qed.
+
+(* the loss seen first by the endpoint's own Write: subscription 0 is full (one event read, one in
+   the hands of its goroutine, 99 and a frame of type Call queued), another frame of type Call for
+   it arrives, dispatch answers "consumer blocked" and that Write fails (its result is discarded:
+   part of LDispatch), then the reads fail *)
+Example smoke_blocked : ccase_ok {| k_n := 1; k_m := 1; k_d := 1;
+  k_trace := [LOnDisc 0; LSubscribe 0; LCallMake 0; LCallSend 0; LPeerMsg (MFor (OSub 0) TEvent); LDispatch; LSubTake 0; LSubRead 0]
+             ++ fillsub 0 100 ++ [LSubTake 0; LPeerMsg (MFor (OSub 0) TOther); LDispatch;
+                                  LPeerMsg (MFor (OSub 0) TOther); LConnDie; LDispatch; LReadFail];
+  k_calls := [Some false]; k_subs := [(true, 101)]; k_cbs := [1] |} = true.
 Proof. vm_compute. reflexivity. Qed.
